@@ -20,9 +20,11 @@ package trie2
 //@   props C10
 //@   arith int
 //@   requires forall i int :: 0 <= i && i < len(keys) ==> keys[i] != nil
-//@   loop 1: invariant checked_so_far: len(keys) == len(values) && (forall j int :: 0 <= j && j <= rangeindex ==> values[j] != nil && *values[j] != felt.Zero && (j < len(keys) - 1 ==> feltCmp(*keys[j], *keys[j+1]) <= 0))
+//@   loop 1: invariant checked_so_far: len(keys) == len(values) && (forall j int :: 0 <= j && j <= rangeindex ==> values[j] != nil && *values[j] != felt.Zero && (j < len(keys) - 1 ==> feltCmp(*keys[j], *keys[j+1]) < 0))
 //@   ensures same_length: result == nil ==> len(keys) == len(values)
-//@   ensures non_decreasing: result == nil ==> (forall j int :: 0 <= j && j < len(keys) - 1 ==> feltCmp(*keys[j], *keys[j+1]) <= 0)
+// Keys increase STRICTLY: a repeated key would let a forged pair ride in front of the genuine one (the
+// rebuilt trie keeps the last value written) - defect F21, fixed.
+//@   ensures strictly_increasing: result == nil ==> (forall j int :: 0 <= j && j < len(keys) - 1 ==> feltCmp(*keys[j], *keys[j+1]) < 0)
 //@   ensures no_empty_leaf: result == nil ==> (forall j int :: 0 <= j && j < len(values) ==> values[j] != nil && *values[j] != felt.Zero)
 
 // ---- one step of the proof walk (C10) --------------------------------------------------------------
